@@ -27,10 +27,27 @@ from harness import probes
 
 PROP = "C02"
 TARGETS = ["IbicusModel.Props.C02", "IbicusModel.Lemmas.GenDebiasers"]  # the audit imports both
-GEN = ["Debiasers"]
+GEN = ["Debiasers", "IsimipVars"]  # IsimipVars: which variables run with the additive trend method (Lemmas.C02.additive_variables_cfg)
 
 SHIFTS = [0.5, -0.5, 3.0, -3.0, 1e3, -1e3]
 FACTORS = [0.5, 2.0, 10.0, 250.0, 1.0 / 400.0]  # the extreme factors expose a clipped change factor (seeded C02-1)
+# the variables whose documented ISIMIP trend preservation is additive (Lemmas.C02.additiveVariables), each built from the LIBRARY DEFAULTS
+# (`ISIMIP.from_variable(v)`; only options that deviate from the defaults are passed), with (offset, factor) turning tas-like K into its units
+ISIMIP_ADDITIVE_VARIABLES = {"tas": (0.0, 1.0), "psl": (101300.0 - 80.0 * 285.0, 80.0), "rlds": (310.0 - 6.0 * 285.0, 6.0)}
+
+
+def isimip_kwargs(e):
+    """constructor options on top of the library defaults of the variable: only what deviates from them"""
+    kw = {}
+    if e.get("npqm"):
+        kw["nonparametric_qm"] = True
+    if e.get("detrending") is False:
+        kw["detrending"] = False
+    if e.get("ela"):
+        kw["event_likelihood_adjustment"] = True
+    return kw
+
+
 DISCRETE_IECDF = ("inverted_cdf", "averaged_inverted_cdf", "closest_observation")
 DEB_FAMILIES = ["LS", "DC", "QM", "ECDFM", "QDM", "SDMabs", "CDFt"]
 ISI_CONFIGS = ["tas_detr", "tas_nodetr", "tas_ks", "tas_nosigtest", "tas_npqm", "tas_hazen", "tas_ela"]
@@ -66,8 +83,7 @@ def oracle_configs():
     cf["CDFt"] = ("add", lambda w, y, e: CDFt.from_variable(
         "tas", delta_shift=e.get("shift", "additive"), ecdf_method=e.get("em", "linear_interpolation"),
         iecdf_method=e.get("im", "linear"), **w, **y))
-    cf["ISIMIP/additive"] = ("add", lambda w, y, e: ISIMIP.from_variable(
-        "tas", nonparametric_qm=e.get("npqm", False), detrending=e.get("detrending", True), **w))
+    cf["ISIMIP/additive"] = ("add", lambda w, y, e: ISIMIP.from_variable(e.get("var", "tas"), **isimip_kwargs(e), **w))
     cf["LinearScaling/multiplicative"] = ("mult", lambda w, y, e: LinearScaling.from_variable("pr", delta_type="multiplicative", **w))
     cf["DeltaChange/multiplicative"] = ("mult", lambda w, y, e: DeltaChange.from_variable("pr", delta_type="multiplicative", **w))
     cf["QuantileMapping/multiplicative-nonparametric"] = ("mult", lambda w, y, e: QuantileMapping.from_variable(
@@ -183,7 +199,11 @@ def oracle(rng, n_cases, res, problems):
             if name == "CDFt" and rng.random() < 0.2:
                 e["shift"] = "no_shift"
         if isi:
-            e = dict(npqm=rng.random() < 0.3, detrending=rng.random() < 0.85)
+            var = sorted(ISIMIP_ADDITIVE_VARIABLES)[(k // len(names)) % 3]  # every additive variable in every quick run
+            ela = (k // len(names)) % 2 == 1 if k // len(names) < 8 else rng.random() < 0.4  # the documented option in every quick run
+            e = dict(var=var, npqm=(not ela) and rng.random() < 0.3, detrending=rng.random() < 0.85, ela=ela)
+            off, fac = ISIMIP_ADDITIVE_VARIABLES[var]
+            o, h, f = (off + fac * x for x in (o, h, f))
         inferred = rng.random() < 0.3
         if inferred:  # the inferred dates start on 1950-01-01: compare with the same dates given explicitly
             dates_used = None
@@ -217,7 +237,12 @@ def oracle(rng, n_cases, res, problems):
 
         def second_run(f2):
             """the second call (same object or a fresh one); returns (out, problem text | None)"""
-            out_ = run_loc(deb0 if same else mk(w, y, e), o, h, f2, dates_used)
+            try:
+                out_ = run_loc(deb0 if same else mk(w, y, e), o, h, f2, dates_used)
+            except Exception as ex:  # noqa: BLE001
+                return base, f"the run on the changed cm_future raises {type(ex).__name__}: {str(ex)[:120]}"
+            if not (isinstance(out_, np.ndarray) and out_.shape == base.shape):
+                return base, f"the run on the changed cm_future returns {type(out_).__name__} of shape {getattr(out_, 'shape', None)} instead of {base.shape}"
             if same and out_ is base:
                 return out_, "the second apply_location call on the same debiaser returns the very array object returned by the first call"
             if same and not np.array_equal(base, base_kept):
@@ -317,7 +342,10 @@ def isimip_trend_oracle(rng, n_cases, res, problems):
         if kind == "trend":
             f = f + rate * np.arange(dF.size) / 365.0
             h = h + rng.choice([0.0, 0.4]) * np.arange(dH.size) / 365.0
-        kw = dict(nonparametric_qm=rng.random() < 0.3, detrending=rng.random() < 0.9, running_window_mode=False)
+        var = sorted(ISIMIP_ADDITIVE_VARIABLES)[k % 3]
+        off, fac = ISIMIP_ADDITIVE_VARIABLES[var]
+        o, h, f, rate = off + fac * o, off + fac * h, off + fac * f, rate * fac
+        kw = dict(running_window_mode=False, **isimip_kwargs(dict(npqm=rng.random() < 0.3, detrending=rng.random() < 0.9, ela=rng.random() < 0.3)))
         # storage order of the (explicitly dated) series: nothing in ibicus requires a chronological time axis -- windows are
         # selected by day of year / month, the trend by calendar year (the model's yearlyMeans selects by year, not by position)
         order_kind = rng.choice(["chronological", "blocks-swapped", "descending", "shuffled"])
@@ -338,7 +366,7 @@ def isimip_trend_oracle(rng, n_cases, res, problems):
         if order_kind != "chronological" and k % 2 == 0:  # the historical series as well, in another order
             po, ph = reorder(o.size, rng.choice(["descending", "shuffled"])), reorder(h.size, rng.choice(["blocks-swapped", "shuffled"]))
             o, dO, h, dH = o[po], dO[po], h[ph], dH[ph]
-        case = {"config": "ISIMIP/additive", "what": "isimip-trend", "kw": kw, "trend": kind, "rate_per_year": rate if kind == "trend" else 0.0,
+        case = {"config": "ISIMIP/additive", "variable": var, "what": "isimip-trend", "kw": kw, "trend": kind, "rate_per_year": rate if kind == "trend" else 0.0,
                 "storage_order": order_kind,
                 "years_F": ny, "sizes": [int(o.size), int(h.size), int(f.size)], "case": k, "seed": C.seed(), "startF": str(dF[0])}
         yO, yH, yF = (year(d) for d in (dO, dH, dF))
@@ -351,14 +379,20 @@ def isimip_trend_oracle(rng, n_cases, res, problems):
             _seen["r"] = np.array(r, dtype=float)
             return r
 
-        with warnings.catch_warnings(), np.errstate(all="ignore"):
-            warnings.simplefilter("ignore")
-            deb = ISIMIP.from_variable("tas", **kw)
-            try:
-                ISIMIP.step6 = spy6
-                outw = deb._apply_on_window(o, h, f, yO, yH, yF)
-            finally:
-                ISIMIP.step6 = orig6
+        try:
+            with warnings.catch_warnings(), np.errstate(all="ignore"):
+                warnings.simplefilter("ignore")
+                deb = ISIMIP.from_variable(var, **kw)
+                try:
+                    ISIMIP.step6 = spy6
+                    outw = deb._apply_on_window(o, h, f, yO, yH, yF)
+                finally:
+                    ISIMIP.step6 = orig6
+            if not (isinstance(outw, np.ndarray) and outw.shape == f.shape and "r" in seen and seen["r"].shape == f.shape):
+                raise ValueError(f"_apply_on_window returned {type(outw).__name__} of shape {getattr(outw, 'shape', None)}")
+        except Exception as ex:  # noqa: BLE001
+            problems.append((f"ISIMIP({var}): _apply_on_window on well-formed input: {type(ex).__name__}: {str(ex)[:120]}", {**case, "what": "exception"}))
+            continue
         tr, sig, slope = annual_trend(f, yF)
         if not deb.detrending:
             tr = np.zeros_like(f)
@@ -375,10 +409,14 @@ def isimip_trend_oracle(rng, n_cases, res, problems):
             continue
         if order_kind != "chronological":
             # the same dated values in chronological storage order give the same debiased value for every date (month mode)
-            with warnings.catch_warnings(), np.errstate(all="ignore"):
-                warnings.simplefilter("ignore")
-                a_perm = ISIMIP.from_variable("tas", **kw).apply_location(o, h, f, dO, dH, dF)
-                a_chr = ISIMIP.from_variable("tas", **kw).apply_location(o, h, f_chron, dO, dH, dF_chron)
+            try:
+                with warnings.catch_warnings(), np.errstate(all="ignore"):
+                    warnings.simplefilter("ignore")
+                    a_perm = ISIMIP.from_variable(var, **kw).apply_location(o, h, f, dO, dH, dF)
+                    a_chr = ISIMIP.from_variable(var, **kw).apply_location(o, h, f_chron, dO, dH, dF_chron)
+            except Exception as ex:  # noqa: BLE001
+                problems.append((f"ISIMIP({var}) month mode, {order_kind} time axis: {type(ex).__name__}: {str(ex)[:120]}", {**case, "what": "exception"}))
+                continue
             devp = float(np.max(np.abs(a_perm - a_chr[perm])))
             res.count(("isimip-order", order_kind, kind, bool(deb.detrending), ny), True)
             if len([x for x in samples if x.get("storage_order", "chronological") != "chronological"]) < 1:
@@ -390,7 +428,7 @@ def isimip_trend_oracle(rng, n_cases, res, problems):
                                  f"(chronological: {annual_slope(a_chr, year(dF_chron)):.4g}/yr)", {**case, "what": "isimip-storage-order"}))
                 continue
         if k % 3 == 0 and deb.detrending:
-            b = rng.choice([-1, 1]) * rng.choice([0.5, 2.0])
+            b = rng.choice([-1, 1]) * rng.choice([0.5, 2.0]) * fac
             uy = np.unique(yF)
             g = b * (yF - uy.mean())
             months = np.array([d.month for d in dF])
@@ -399,10 +437,14 @@ def isimip_trend_oracle(rng, n_cases, res, problems):
                 mm = months == m
                 ok = ok and np.unique(yF[mm]).size == uy.size and annual_trend(f[mm], yF[mm])[1] and annual_trend((f + g)[mm], yF[mm])[1]
             if ok:
-                with warnings.catch_warnings(), np.errstate(all="ignore"):
-                    warnings.simplefilter("ignore")
-                    a1 = ISIMIP.from_variable("tas", **kw).apply_location(o, h, f, dO, dH, dF)
-                    a2 = ISIMIP.from_variable("tas", **kw).apply_location(o, h, f + g, dO, dH, dF)
+                try:
+                    with warnings.catch_warnings(), np.errstate(all="ignore"):
+                        warnings.simplefilter("ignore")
+                        a1 = ISIMIP.from_variable(var, **kw).apply_location(o, h, f, dO, dH, dF)
+                        a2 = ISIMIP.from_variable(var, **kw).apply_location(o, h, f + g, dO, dH, dF)
+                except Exception as ex:  # noqa: BLE001
+                    problems.append((f"ISIMIP({var}) month mode with a linear trend added: {type(ex).__name__}: {str(ex)[:120]}", {**case, "what": "exception"}))
+                    continue
                 dev2 = float(np.max(np.abs(a2 - a1 - g)))
                 res.count(("isimip-linear", kind, b, ny), True)
                 if not dev2 <= 1e-7 * (1 + scale):
@@ -486,7 +528,11 @@ def apply_oracle(rng, n_cases, res, problems):
         if kind == "add":
             for c in (rng.choice([0.4, 2.5, -0.5, 1e3 + 0.25]), rng.choice([3, -3])):  # a non-integer shift and an integer control
                 fut_c = fut + c if not (f32 and dts[2] == "float32") else (fut.astype(np.float64) + c)
-                out = run_apply(mk(w), obs, hist, fut_c, times)
+                try:
+                    out = run_apply(mk(w), obs, hist, fut_c, times)
+                except Exception as ex:  # noqa: BLE001
+                    problems.append((f"{name} via apply, dtypes {dts}, cm_future + {c}: {type(ex).__name__}: {str(ex)[:120]}", {**case, "what": "apply-exception", "c": c}))
+                    break
                 dev = float(np.max(np.abs(out.astype(float) - base.astype(float) - c)))
                 tol = 2e-5 * (1 + abs(c) + scale) if f32 else 1e-8 * (1 + abs(c) + scale)
                 res.count(("apply-shift", name, tuple(dts), ncell, rw, bool(times), c), True)
@@ -500,7 +546,11 @@ def apply_oracle(rng, n_cases, res, problems):
         else:
             for kf in (rng.choice([0.5, 2.5, 1.0 / 400.0]), rng.choice([2, 10, 250])):
                 fut_k = fut * kf if not (f32 and dts[2] == "float32") else (fut.astype(np.float64) * kf)
-                out = run_apply(mk(w), obs, hist, fut_k, times)
+                try:
+                    out = run_apply(mk(w), obs, hist, fut_k, times)
+                except Exception as ex:  # noqa: BLE001
+                    problems.append((f"{name} via apply, dtypes {dts}, {kf} * cm_future: {type(ex).__name__}: {str(ex)[:120]}", {**case, "what": "apply-exception", "k": kf}))
+                    break
                 dev = float(np.max(np.abs(out.astype(float) - kf * base.astype(float))))
                 tol = (2e-5 if f32 else 1e-8) * (1 + kf) * (1 + float(np.abs(base).max()))
                 res.count(("apply-scale", name, tuple(dts), ncell, rw, bool(times), kf), True)
@@ -652,7 +702,9 @@ def run(tier, res, force_search=False):
         "exact rational arithmetic; the 'exactly c' of the property is checked on floats within 1e-8*(1+|c|+scale)",
         "additive theorems: cm_future window samples non-empty (proved from the dates for the seasonal loop), cm_hist window samples non-empty for CDFt, "
         "obs / cm_hist / cm_future window samples non-empty and year lists parallel for ISIMIP",
-        "ISIMIP: additive trend method, no bounds / thresholds (tas, psl, rlds), no scaling by the annual cycle; SSR (CDFt for pr) and censoring (QDM for pr) are outside the property",
+        "ISIMIP: every variable whose documented trend preservation is additive (tas, psl, rlds), built from the library defaults (tier A: "
+        "Lemmas.C02.additive_variables_cfg / _complete on the regenerated settings table), with nonparametric_qm / detrending / event_likelihood_adjustment "
+        "switched on top; no bounds / thresholds, no scaling by the annual cycle; SSR (CDFt for pr) and censoring (QDM for pr) are outside the property",
         "CDFt: delta_shift additive or no_shift (multiplicative delta shift rescales the signal: Props.C02.cdft_multiplicative_shiftG)",
         "deterministic configurations only",
         "oracle tolerance: min(1e-8*(1+|c|+scale), max(1e-3*|c|, 1e-10*(1+scale))) -- never more than 0.1 % of a small signal; shifts from 1e-6 of the "
